@@ -401,6 +401,7 @@ class SpecEnv(object):
         in_sys_modules_at = U("in_sys_modules_at", Val, Int, Bool)
         sys_module = U("sys_module", Val, Val)
         truthy_obj = U("truthy_obj", Val, Bool)
+        sorted_by = U("sorted_by", Val, Val, Val)
         module_attr = U("module_attr", Val, Val, Val)
         is_exception_class = U("is_exception_class", Val, Bool)
         is_generic_exception_class = U("is_generic_exception_class", Val, Bool)
@@ -734,6 +735,25 @@ class SpecEnv(object):
             self.fact(z3.ForAll([x], z3.Not(mem(x, VL.nil)), patterns=[mem(x, VL.nil)]))
             return b2v(z3.ForAll([q], z3.Implies(z3.Select(h, q), mem(q, lz)), patterns=[z3.Select(h, q)]))
         P["all_keys_in"] = p_all_keys_in
+
+        def p_members_of(ctx, sub, whole):
+            """every element of the list `sub` occurs in the list `whole` (a loop over `whole` keeps this for what is left)"""
+            mem = self.recs["member"].z
+            x, hd_, tl_ = z3.Const("q!x", Val), z3.Const("q!h", Val), z3.Const("q!t", VL)
+            self.fact(z3.ForAll([x, hd_, tl_], mem(x, VL.cons(hd_, tl_)) == z3.Or(x == hd_, mem(x, tl_)),
+                                patterns=[mem(x, VL.cons(hd_, tl_))]))
+            self.fact(z3.ForAll([x], z3.Not(mem(x, VL.nil)), patterns=[mem(x, VL.nil)]))
+            a, b = self.to_sort(sub, "vl"), self.to_sort(whole, "vl")
+            return b2v(z3.ForAll([x], z3.Implies(mem(x, a), mem(x, b)), patterns=[mem(x, a)]))
+        P["members_of"] = p_members_of
+
+        def p_entries_sorted_by(ctx, d, key, keysrc):
+            """the value sorted(d[key].items(), key=lambda x: <keysrc>) denotes, for the dict-of-dicts d in the current state"""
+            e = ctx.engine
+            m2, h2 = e.heap_get(ctx.st, d, "map2").z, e.heap_get(ctx.st, d, "has2").z
+            view = dict_view(z3.IntVal(2), z3.Select(m2, to_val(key)), z3.Select(h2, to_val(key)))
+            return SVal(sorted_by(view, to_val(keysrc)))
+        P["entries_sorted_by"] = p_entries_sorted_by
         P["generic_cache_ok"] = p_generic_cache_ok
         P["module_global"] = lambda ctx, modname, name: ctx.engine.global_obj(modname, name)
         P["tuple_of"] = lambda ctx, v: SVal(seq_of(z3.IntVal(0), to_val(v)))
@@ -902,6 +922,18 @@ class SpecEnv(object):
             same_ = z3.And(now_ == was, z3.Implies(now_, z3.Select(z3.Select(m2, n), a) == z3.Select(z3.Select(m20, n), a)))
             return b2v(z3.ForAll([n, a], z3.Or(a == to_val(addr), same_)))
         P["other_servers_untouched"] = p_other_servers_untouched
+
+        def p_other_names_untouched(ctx, d, name):
+            """dict-of-dicts d: every entry under a name other than `name` is exactly what it was at function entry"""
+            e = ctx.engine
+            def view(st):
+                return (e.heap_get(st, d, "has").z, e.heap_get(st, d, "has2").z, e.heap_get(st, d, "map2").z)
+            h, h2, m2 = view(ctx.st)
+            h0, h20, m20 = view(ctx.engine.pre_state if ctx.pre is None else ctx.pre)
+            n = z3.Const("q!nm", Val)
+            return b2v(z3.ForAll([n], z3.Or(n == to_val(name), z3.And(z3.Select(h, n) == z3.Select(h0, n),
+                                                                     z3.Select(h2, n) == z3.Select(h20, n), z3.Select(m2, n) == z3.Select(m20, n)))))
+        P["other_names_untouched"] = p_other_names_untouched
 
         def p_times_ok(ctx, d):
             """class invariant of the registry's table: every registration carries a time (a float object)"""
